@@ -193,7 +193,7 @@ func summarize(a *auditJSON) string {
 }
 
 func checkC17(ctx *Ctx) {
-	ctx.Res.Rule = "producer -> {os:out} FIFO -> consumer pairs: n in 1..4 streamed items with maxConcurrentTasks >= 2n, payloads {0, 100, 65536, 200000} bytes (below and above the 64 KiB pipe buffer), producer-lingers / consumer-lingers / neither, producers with a second ordinary or streaming out-port and its own consumer, then the history 'run again'; non-trivial = all; distinct by case. Checks: consumer's bytes = producer's bytes (sha256), no file at the streaming output path, FIFO removed, no leftovers, consumer's audit record names the producer as upstream, the re-run terminates and leaves the consumer's outputs untouched."
+	ctx.Res.Rule = "producer -> {os:out} FIFO -> consumer pairs: n in 1..4 streamed items with maxConcurrentTasks >= 2n, payloads {0, 100, 65536, 200000} bytes (below and above the 64 KiB pipe buffer), producer-lingers / consumer-lingers / neither, producers with a second ordinary or streaming out-port and its own consumer, then the history 'run again'; non-trivial = all; distinct by case. Checks: consumer's bytes = producer's bytes (sha256), no file at the streaming output path, FIFO removed, no leftovers, consumer's audit record names the producer as upstream, the re-run terminates and leaves the consumer's outputs untouched; also: a stream path with ../, a producer with a streaming and an ordinary output run again (its hang is not F10), the audit link with a late consumer (not F15); thorough: a pair with one slot must hang (model's negative theorem)."
 	r := NewRng(ctx.Seed)
 	_ = ioutil.Discard
 	cases := []c17Case{}
